@@ -226,11 +226,14 @@ are found under the node's fully qualified id -/
 def StoreOf (nm : List String → String) (O : Oracle) (ρ : Store) : Prop :=
   ∀ path forks, ρ.outs (nm path) forks = (O ⟨path, forks⟩).getD .null
 
+/-- the stage instance a (plain) stage node is, with the argument record the run-time phase computes -/
+def toInst (st : StructTable) (nf : Nat) (ρ : Store) (n : SNode) : Inst :=
+  ⟨⟨n.path, []⟩, runtimeArgs st nf ρ [] n, false, false⟩
+
 /-- BOTH PHASES: (top-level outputs, argument record of every stage node) for a plain program -/
-def twoPhase (P : Program) (nm : List String → String) (ρ : Store) : J × List (InstKey × J) :=
-  let s := staticProgram P nm
-  (evalRT P.table P.nfuel ρ [] ⟨P.top.callee, 0, 0⟩ s.1.exp,
-   s.2.map fun n => (⟨n.path, []⟩, runtimeArgs P.table P.nfuel ρ [] n))
+def twoPhase (P : Program) (nm : List String → String) (ρ : Store) : J × List Inst :=
+  ((evalRT P.table P.nfuel ρ [] ⟨P.top.callee, 0, 0⟩ (staticProgram P nm).1.exp),
+   (staticProgram P nm).2.map (toInst P.table P.nfuel ρ))
 
 /-! ## the fragment -/
 
